@@ -26,9 +26,15 @@ def u3_gate(kind, ang):
     return g if kind == 0 else W("controlled", g, k=kind)
 
 
+_RULE = []
+
+
 def decompose(circ, rules=None):
+    """the SAME rule object serves every decomposition of this process (a rule is a value: reusing it must not matter)"""
     from orquestra.quantum.decompositions import U3GateToRotation, decompose_orquestra_circuit
-    return decompose_orquestra_circuit(circ, [U3GateToRotation()] if rules is None else rules)
+    if not _RULE:
+        _RULE.append(U3GateToRotation())
+    return decompose_orquestra_circuit(circ, [_RULE[0]] if rules is None else rules)
 
 
 def padU(U, n):
@@ -162,7 +168,7 @@ def rules_case(case):
             "sig": "rules:order"}
 
 
-FUNCS = {"grid": grid_case, "circuits": circuit_case, "rules": rules_case}
+FUNCS = {"special_angles": grid_case, "grid": grid_case, "circuits": circuit_case, "rules": rules_case}
 
 
 def partner_ops(n):
@@ -187,6 +193,11 @@ def run(run):
         for i in range(0, len(grid), 12):
             cases.append({"kind": kind, "points": grid[i:i + 12]})
     secs = [Section("grid", cases, grid_case, horizon=900, chunk=1, desc="U3 / c-U3 / cc-U3 on the full certificate grid of %d angle triples" % len(grid))]
+    # exact special angles: a branch on an exact value (theta == pi ...) is invisible to a polynomial argument, so these are enumerated explicitly
+    sp = [0, np.pi / 2, np.pi, -np.pi, 2 * np.pi, 3 * np.pi, 4 * np.pi]
+    spg = [list(p) for p in itertools.product(sp, repeat=3)] + [[np.pi, 0.4, -0.4], [np.pi, 0.3, 0.5], [0, 0.3, 0.5], [2 * np.pi, 0.3, 0.5], [0.3, np.pi, 0], [0.3, 0, np.pi]]
+    scases = [{"kind": kind, "points": spg[i:i + 10]} for kind in ((0, 1, 2) if thorough else (0, 1)) for i in range(0, len(spg), 10)]
+    secs.append(Section("special_angles", scases, grid_case, horizon=900, chunk=1, desc="every triple of exact special angles {0, pi/2, pi, -pi, 2pi, 3pi, 4pi} (+ mixed) for each U3 kind"))
     tri = TRIPLES if thorough else TRIPLES[:3]
     cc = []
     for kind in (0, 1, 2):
@@ -201,6 +212,10 @@ def run(run):
                             cc.append({"ops": [p, u], "n": n})
     # two U3-kind operations in one circuit, and circuits without any matched operation
     cc.append({"ops": [{"gate": u3_gate(0, tri[0]), "q": [1]}, {"gate": u3_gate(1, tri[1]), "q": [2, 0]}], "n": 3})
+    # the same (equal) matched operation several times in one circuit, and again in later circuits of this process
+    for kind in (0, 1):
+        u = {"gate": u3_gate(kind, tri[0]), "q": list(range(kind + 1))}
+        cc += [{"ops": [u, u], "n": 2}, {"ops": [u, {"gate": G("T"), "q": [0]}, u], "n": 2}, {"ops": [u, u, u], "n": 2}, {"ops": [u], "n": 2}]
     cc.append({"ops": [{"gate": u3_gate(1, tri[0]), "q": [0, 1]}, {"gate": u3_gate(1, tri[1]), "q": [1, 0]}], "n": 2})
     cc += [{"ops": [p, q], "n": 3} for p in partner_ops(3)[:4] for q in partner_ops(3)[4:8]]
     cc.append({"ops": [{"gate": W("dagger", G("U3", 0.3, 0.4, 0.5)), "q": [0]}, {"gate": W("power", G("U3", 0.3, 0.4, 0.5), e=2), "q": [1]}], "n": 2})
